@@ -121,9 +121,9 @@ func checkCmd(args []string) int {
 	}
 	tmp, _ := os.MkdirTemp("", "govc-"+id+"-")
 	defer os.RemoveAll(tmp)
-	d := &Discharger{Prelude: u.Prelude, Dir: tmp, TimeoutMs: 30000, Primary: []string{"z3-new", "z3", "cvc5"}, Stats: newStats(), Workers: runtime.NumCPU()}
+	d := &Discharger{Prelude: u.Prelude, Dir: tmp, TimeoutMs: 90000, Primary: []string{"z3-new", "z3", "cvc5"}, Stats: newStats(), Workers: runtime.NumCPU()}
 	if *tier == "thorough" {
-		d.TimeoutMs = 120000
+		d.TimeoutMs = 300000
 		d.SecondGround = "cvc5"
 	}
 	var groups [][]*Oblig
